@@ -12,6 +12,7 @@ import Driver.ConcStream
 import Driver.ParseStream
 import Driver.LeptondStream
 import Driver.NamesStream
+import Driver.LeptondLoopStream
 open Driver
 
 def main (args : List String) : IO UInt32 := do
@@ -42,4 +43,6 @@ def main (args : List String) : IO UInt32 := do
   | ["mon", "leptond"] => runMon LeptondStream.init LeptondStream.monStep LeptondStream.monFinish; return 0
   | ["model", "names"] => runModel NamesStream.init NamesStream.step; return 0
   | ["mon", "names"] => runMon NamesStream.init NamesStream.monStep NamesStream.monFinish; return 0
+  | ["model", "leptondloop"] => runModel LeptondLoopStream.init LeptondLoopStream.step; return 0
+  | ["mon", "leptondloop"] => runMon LeptondLoopStream.init LeptondLoopStream.monStep LeptondLoopStream.monFinish; return 0
   | _ => IO.eprintln "usage: driver model|mon <stream>"; return 2
